@@ -77,6 +77,7 @@ func (c *Channel) Buffer() []interface{} {
 
 	verifAt("channel.buffer.lock", c, 0)
 	c.mutex.Lock()
+	verifAt("channel.buffer.locked", c, 0)
 	defer c.mutex.Unlock()
 
 	if c.buffer == nil {
@@ -101,6 +102,7 @@ func (c *Channel) Close() error {
 		// synchronisation is required to avoid racing on Get
 		verifAt("channel.close.lock", c, 0)
 		c.mutex.Lock()
+		verifAt("channel.close.locked", c, 0)
 		defer c.mutex.Unlock()
 
 		// close the done channel AFTER the context cancel WHILE holding the mutex
@@ -143,6 +145,7 @@ func (c *Channel) Get(ctx context.Context) (value interface{}, err error) {
 			// synchronise - we will break the state otherwise
 			verifAt("channel.get.lock", c, 0)
 			c.mutex.Lock()
+			verifAt("channel.get.locked", c, 0)
 			defer c.mutex.Unlock()
 
 			// check for context cancels - bails out if so, we must not modify the state further
@@ -204,6 +207,7 @@ func (c *Channel) Commit() error {
 
 	verifAt("channel.commit.lock", c, 0)
 	c.mutex.Lock()
+	verifAt("channel.commit.locked", c, 0)
 	defer c.mutex.Unlock()
 
 	if err := c.ctx.Err(); err != nil {
@@ -234,6 +238,7 @@ func (c *Channel) Rollback() error {
 
 	verifAt("channel.rollback.lock", c, 0)
 	c.mutex.Lock()
+	verifAt("channel.rollback.locked", c, 0)
 	defer c.mutex.Unlock()
 
 	// rollback can happen regardless of context
